@@ -20,6 +20,7 @@ type Env struct {
 	sym   *core.Symbolizer
 	sp    *spine
 	fmtc  *fmtInfo
+	xs    *core.Symbolizer
 }
 
 var Registry = map[string]func(*Env){}
